@@ -191,6 +191,21 @@ func drain[T any](it fp.Iterator[T], limit int) (out []T, over bool) {
 type census struct {
 	array, bitmap, hasharray, collision, deep bool
 	walked, unavailable                        bool
+	// shrinking transitions of the value under test between two consecutive steps
+	haShrunk, collCollapsed, emptied bool
+	last                             immutable.VerifCensus
+	lastOK                           bool
+}
+
+// transition records what a step did to the node population of the current value.
+// fresh: the current value was replaced by another version (switch), so there is no transition.
+func (c *census) transition(now immutable.VerifCensus, ok, fresh bool) {
+	if ok && c.lastOK && !fresh {
+		c.haShrunk = c.haShrunk || now.HashArray < c.last.HashArray
+		c.collCollapsed = c.collCollapsed || now.Collision < c.last.Collision
+		c.emptied = c.emptied || (now.Entries == 0 && c.last.Entries > 0)
+	}
+	c.last, c.lastOK = now, ok
 }
 
 func (c *census) add(v immutable.VerifCensus, ok bool) {
@@ -224,6 +239,15 @@ func (c *census) report(rec *kit.Rec) {
 	if c.deep {
 		rec.Label("depth>=3")
 	}
+	if c.haShrunk {
+		rec.Label("step:hasharray-node-went-away")
+	}
+	if c.collCollapsed {
+		rec.Label("step:collision-node-went-away")
+	}
+	if c.emptied {
+		rec.Label("step:emptied")
+	}
 	if c.walked && !c.interesting() {
 		rec.Label("array-or-empty-only")
 	}
@@ -237,7 +261,7 @@ func (c *census) report(rec *kit.Rec) {
 // observeMap compares everything C03 names (Get/Contains over the key space, Size, IsEmpty/NonEmpty,
 // Iterator/Keys/Values as multisets, structural invariants when the base is the HAMT) with model.
 // sub is the sub-check name (signature prefix), what says which value is looked at, hist gives the history so far.
-func observeMap(rt *rapid.T, rec *kit.Rec, sub, what string, m fp.Map[int, int], model map[int]int, hs hspec, cen *census, hist func() string) {
+func observeMap(rt *rapid.T, rec *kit.Rec, sub, what string, m fp.Map[int, int], model map[int]int, hs hspec, cen *census, hist func() string) (immutable.VerifCensus, bool) {
 	limit := 4*keySpace + 16
 	gets := make([]fp.Option[int], len(probes))
 	cont := make([]bool, len(probes))
@@ -339,10 +363,11 @@ func observeMap(rt *rapid.T, rec *kit.Rec, sub, what string, m fp.Map[int, int],
 	if fmt.Sprint(gotVals) != fmt.Sprint(wantVals) {
 		fail("Values", "Values() as a sorted multiset = %v, want %v", gotVals, wantVals)
 	}
+	return vc, vok
 }
 
 // observeSet: Contains over the key space, Size, IsEmpty/NonEmpty, Iterator as a multiset, structure.
-func observeSet(rt *rapid.T, rec *kit.Rec, sub, what string, s fp.Set[int], model map[int]bool, hs hspec, cen *census, hist func() string) {
+func observeSet(rt *rapid.T, rec *kit.Rec, sub, what string, s fp.Set[int], model map[int]bool, hs hspec, cen *census, hist func() string) (immutable.VerifCensus, bool) {
 	limit := 4*keySpace + 16
 	cont := make([]bool, len(probes))
 	var size int
@@ -404,6 +429,7 @@ func observeSet(rt *rapid.T, rec *kit.Rec, sub, what string, s fp.Set[int], mode
 		}
 		fail("Iterator", "Iterator yields %d elements, want %d; never yielded %v", len(elems), len(model), missing)
 	}
+	return vc, vok
 }
 
 // setSteps sets the mean number of rapid Repeat actions for the stateful sub-checks.
